@@ -1708,6 +1708,18 @@ class Analyzer:
 
     def e_Call(self, e, s):
         out = []
+        # any((a, b, c)) / all([a, b]) over a display is `a or b or c` / `a and b` as far as its truth goes
+        if isinstance(e.func, ast.Name) and e.func.id in ("any", "all") and len(e.args) == 1 and not e.keywords and \
+                isinstance(e.args[0], (ast.Tuple, ast.List)) and 2 <= len(e.args[0].elts) <= 8 and \
+                not any(isinstance(x, ast.Starred) for x in e.args[0].elts) and self._k(e.func.id) not in s.env and \
+                self.global_term(e.func.id) == ("builtin", e.func.id):
+            b = getattr(e, "_as_boolop", None)
+            if b is None:
+                b = ast.BoolOp(op=ast.Or() if e.func.id == "any" else ast.And(), values=list(e.args[0].elts))
+                ast.copy_location(b, e)
+                b._parent = getattr(e, "_parent", None)
+                e._as_boolop = b
+            return self.eval(b, s)
         # map(f, xs) is the generator (f(x) for x in xs): analysed as such, so that element-wise rules see the call
         if isinstance(e.func, ast.Name) and e.func.id == "map" and len(e.args) == 2 and not e.keywords and \
                 not any(isinstance(a, ast.Starred) for a in e.args) and self._k("map") not in s.env and \
